@@ -192,7 +192,7 @@ impl Check for C06 {
             withhold_imports: false,
             linked_promises: false,
             host_activity_pm: 0,
-            internal_sources: Default::default(),
+            internal_sources: Default::default(), stale_answer_ids: Vec::new(),
         };
         let mut run = Run::new(spec);
         let mut stopped_by: Option<&str> = None;
@@ -261,7 +261,7 @@ impl Check for C06 {
                     withhold_imports: false,
                     linked_promises: false,
                     host_activity_pm: 0,
-                    internal_sources: Default::default(),
+                    internal_sources: Default::default(), stale_answer_ids: Vec::new(),
                 },
             );
             if follow.result != "complete:10" {
